@@ -11,16 +11,17 @@ func evalLiteralCall(node *ast.LiteralCallExpr, env *object.Env) object.PanObjec
 		return appendStackTrace(err, node.Source())
 	}
 
-	f := Eval(node.Func, env)
-	if err, ok := f.(*object.PanErr); ok {
-		return appendStackTrace(err, node.Source())
-	}
-
 	var chainArg object.PanObject = object.BuiltInNil
 	if node.Chain.Arg != nil {
 		chainArg = Eval(node.Chain.Arg, env)
 	}
 	if err, ok := chainArg.(*object.PanErr); ok {
+		return appendStackTrace(err, node.Source())
+	}
+
+	// NOTE: func literal is written after chain arg (kwarg defaults may have side effects)
+	f := Eval(node.Func, env)
+	if err, ok := f.(*object.PanErr); ok {
 		return appendStackTrace(err, node.Source())
 	}
 
